@@ -262,6 +262,9 @@ func c15Check(ci interface{}) lib.Outcome {
 			if na.Name != nb.Name && !tiedAt(files, c.Thr, text, na.Name, nb.Name, na.Confidence) {
 				return lib.Outcome{Violation: fmt.Sprintf("%s, query %d (%s): NearestMatch = %s from the archive, %s built directly (confidence %v, not a tie)", desc, qi, qdesc, na.Name, nb.Name, na.Confidence)}
 			}
+			if na.Name == nb.Name && (na.Offset != nb.Offset || na.Extent != nb.Extent) {
+				return lib.Outcome{Violation: fmt.Sprintf("%s, query %d (%s): NearestMatch = {%s %v offset %d extent %d} from the archive, offset %d extent %d built directly", desc, qi, qdesc, na.Name, na.Confidence, na.Offset, na.Extent, nb.Offset, nb.Extent)}
+			}
 			if na.Name != "" && !known[na.Name] {
 				return lib.Outcome{Violation: fmt.Sprintf("%s, query %d (%s): NearestMatch returned %q which is not in the archive", desc, qi, qdesc, na.Name)}
 			}
